@@ -79,6 +79,37 @@ def run_case(case, acc):
             acc.traces += 1
             if sink.error is not None or sink.items != items:
                 return [viol('line', 'long-items-differ', {'chunk_size': step, 'observed_lengths': [len(x) for x in sink.items], 'error': repr(sink.error)})]
+        # a line that arrives in far more than a thousand pieces (one character per chunk)
+        item = ''.join(chr(97 + i % 26) for i in range(1500))
+        sink = run([line.unframe()], list(item) + ['\n', 'tail'])
+        acc.evals += 1
+        if sink.error is not None or sink.items != [item, 'tail']:
+            return [viol('line', 'line-in-many-pieces-differs', {'observed_lengths': [len(x) for x in sink.items], 'error': repr(sink.error)})]
+        # length-prefix: a payload beyond 64 KiB followed by small frames, cut inside the payload and at / just after its end
+        for size, order in ((4, 'little'), (8, 'big')):
+            its = [b'ab', bytes(range(256)) * 274, b'c', b'', b'defg', b'h']
+            fr = b''.join(run([lp.frame(size, order)], its).items)
+            end_big = (size + 2) + (size + len(its[1]))
+            for cuts in ((size + 10, end_big), (size + 70000, end_big + 1), (end_big - 1, end_big + size - 1), (3, end_big, end_big + size + 1),
+                         (size + 2 + size + 65536, end_big)):
+                sink = run([lp.unframe(size, order)], spaces.chunk(fr, cuts))
+                acc.evals += 1
+                acc.traces += 1
+                if sink.error is not None or sink.items != its:
+                    return [viol('length_prefix', 'big-frame-then-small-frames-differ', {'prefix': [size, order], 'cuts': list(cuts),
+                                                                                      'observed_lengths': [len(x) for x in sink.items]})]
+        # the same unframe observable subscribed twice; the first stream ends inside a frame
+        import rx
+        for mk, chunks, want in ((lambda: lp.unframe(4, 'little'), [b'\x03\x00\x00\x00abc\x05\x00\x00', b'\x00xy'], [b'abc']),
+                                 (lambda: line.unframe(), ['ab\ncd', 'ef'], ['ab', 'cdef'])):
+            obs = rx.from_(chunks).pipe(mk())
+            from ..bytelevel import RawSink
+            a, b = RawSink(), RawSink()
+            a.subscribe_to(obs)
+            b.subscribe_to(obs)
+            acc.evals += 2
+            if a.items != want or b.items != want:
+                return [viol('resubscribed', 'second-subscription-differs', {'first': a.items, 'second': b.items, 'expected': want})]
         acc.nontrivial.add(fast_hash('longline'))
         return []
     if case['fam'] == 'line':
